@@ -875,6 +875,8 @@ class FitBase(FileIOMixin, object):
 
         :param str name: The name of the parameter to unlimit.
         """
+        if name not in self.parameter_names:
+            raise ValueError("Unknown parameter name: %s" % name)
         self._fitter.unlimit_parameter(name=name)
 
     def add_matrix_parameter_constraint(self, names, values, matrix, matrix_type="cov", uncertainties=None, relative=False):
